@@ -91,9 +91,10 @@ def spec_wg(tier):
         mc.append(("WaitGroup_MC3.cfg", 12, 3000, "WaitGroup: up to 3 sources / 2 waiters incl. two coroutines and timed + coroutine"))
     return ConcSpec(
         name="WaitGroup", scenario="wg", grid=grid, primary="C16",
+        paths_cfg="WaitGroup_paths.cfg", paths_max=4000 if tier == "quick" else 60000,
         inv_props={"NoRace": ("C16", "C04"), "OwnershipOK": ("C16", "C03"), "ConsumedOnce": ("C16", "C03"),
                    "ConsumedAtQuiescence": ("C16", "C03"), "HeapWaiterReleased": ("C16", "C03")},
-        mc_cfgs=mc, paths_cfg=None,
+        mc_cfgs=mc,
         dfs_max=1200 if tier == "quick" else 8000, preempt=2 if tier == "quick" else 3,
         rand_execs=150 if tier == "quick" else 2500, rand_grid=rand,
         scen_keys=["src", "wts"], trace_timeout=1500)
